@@ -25,7 +25,10 @@ def unmount_below(base):
 
 class Sim:
     def __init__(self, tag):
-        self.base = os.path.join(SCRATCH, "xcpsim.%d.%s" % (os.getpid(), tag))
+        # the same *length* (and separator positions) in every process: with single-stepping, instruction counts inside path handling
+        # (realpath, copies, hashing) depend on the length of the absolute sandbox path; a 5- versus 6-digit pid made two executions of
+        # one stepped plan park at different instructions (seen twice, both under -L where realpath walks the absolute path)
+        self.base = os.path.join(SCRATCH, "xcpsim.%07d.%s" % (os.getpid(), (tag + "____")[:4]))
         unmount_below(self.base)
         shutil.rmtree(self.base, ignore_errors=True)
         os.makedirs(self.base, exist_ok=True)
@@ -120,6 +123,6 @@ class Pool:
         for d in (os.listdir(SCRATCH) if os.path.isdir(SCRATCH) else []):
             if d.startswith("xcpsim."):
                 pid = d.split(".")[1]
-                if not os.path.exists("/proc/%s" % pid):
+                if not (pid.isdigit() and os.path.exists("/proc/%d" % int(pid))):
                     unmount_below(os.path.join(SCRATCH, d))
                     shutil.rmtree(os.path.join(SCRATCH, d), ignore_errors=True)
